@@ -12,6 +12,7 @@ import (
 	"sync"
 	"sync/atomic"
 	"time"
+	"unicode/utf8"
 
 	"github.com/ash2k/stager/wait"
 	"github.com/cenkalti/backoff"
@@ -390,16 +391,44 @@ func (hfh *HttpForwarderHandlerV2) notifyFlush() {
 	}
 }
 
+// validUTF8 returns s if it is valid UTF-8, otherwise s with each run of invalid bytes replaced by
+// U+FFFD. proto.Marshal rejects a message containing a string which is not valid UTF-8, and a single
+// such tag (the statsd parser accepts arbitrary bytes) would otherwise fail the whole merged batch.
+func validUTF8(s string) string {
+	if utf8.ValidString(s) {
+		return s
+	}
+	return strings.ToValidUTF8(s, "\uFFFD")
+}
+
+// validUTF8Slice is validUTF8 over a slice; the input is never modified.
+func validUTF8Slice(ss []string) []string {
+	for i, s := range ss {
+		if !utf8.ValidString(s) {
+			out := make([]string, len(ss))
+			copy(out, ss[:i])
+			for j := i; j < len(ss); j++ {
+				out[j] = validUTF8(ss[j])
+			}
+			return out
+		}
+	}
+	return ss
+}
+
 func translateToProtobufV2(metricMap *gostatsd.MetricMap) *pb.RawMessageV2 {
 	var pbMetricMap pb.RawMessageV2
 
 	pbMetricMap.Gauges = map[string]*pb.GaugeTagV2{}
 	for metricName, m := range metricMap.Gauges {
-		pbMetricMap.Gauges[metricName] = &pb.GaugeTagV2{TagMap: map[string]*pb.RawGaugeV2{}}
+		metricName = validUTF8(metricName)
+		if pbMetricMap.Gauges[metricName] == nil {
+			pbMetricMap.Gauges[metricName] = &pb.GaugeTagV2{TagMap: map[string]*pb.RawGaugeV2{}}
+		}
 		for tagsKey, metric := range m {
-			pbMetricMap.Gauges[metricName].TagMap[tagsKey] = &pb.RawGaugeV2{
-				Tags:     metric.Tags,
-				Hostname: string(metric.Source),
+			pbMetricMap.Gauges[metricName].TagMap[validUTF8(tagsKey)] = &pb.RawGaugeV2{
+				Tags:     validUTF8Slice(metric.Tags),
+				Hostname: validUTF8(string(metric.Source)),
 				Value:    metric.Value,
 			}
 		}
@@ -407,11 +436,14 @@ func translateToProtobufV2(metricMap *gostatsd.MetricMap) *pb.RawMessageV2 {
 
 	pbMetricMap.Counters = map[string]*pb.CounterTagV2{}
 	for metricName, m := range metricMap.Counters {
-		pbMetricMap.Counters[metricName] = &pb.CounterTagV2{TagMap: map[string]*pb.RawCounterV2{}}
+		metricName = validUTF8(metricName)
+		if pbMetricMap.Counters[metricName] == nil {
+			pbMetricMap.Counters[metricName] = &pb.CounterTagV2{TagMap: map[string]*pb.RawCounterV2{}}
+		}
 		for tagsKey, metric := range m {
-			pbMetricMap.Counters[metricName].TagMap[tagsKey] = &pb.RawCounterV2{
-				Tags:     metric.Tags,
-				Hostname: string(metric.Source),
+			pbMetricMap.Counters[metricName].TagMap[validUTF8(tagsKey)] = &pb.RawCounterV2{
+				Tags:     validUTF8Slice(metric.Tags),
+				Hostname: validUTF8(string(metric.Source)),
 				Value:    metric.Value,
 			}
 		}
@@ -419,15 +451,18 @@ func translateToProtobufV2(metricMap *gostatsd.MetricMap) *pb.RawMessageV2 {
 
 	pbMetricMap.Sets = map[string]*pb.SetTagV2{}
 	for metricName, m := range metricMap.Sets {
-		pbMetricMap.Sets[metricName] = &pb.SetTagV2{TagMap: map[string]*pb.RawSetV2{}}
+		metricName = validUTF8(metricName)
+		if pbMetricMap.Sets[metricName] == nil {
+			pbMetricMap.Sets[metricName] = &pb.SetTagV2{TagMap: map[string]*pb.RawSetV2{}}
+		}
 		for tagsKey, metric := range m {
 			var values []string
 			for key := range metric.Values {
-				values = append(values, key)
+				values = append(values, validUTF8(key))
 			}
-			pbMetricMap.Sets[metricName].TagMap[tagsKey] = &pb.RawSetV2{
-				Tags:     metric.Tags,
-				Hostname: string(metric.Source),
+			pbMetricMap.Sets[metricName].TagMap[validUTF8(tagsKey)] = &pb.RawSetV2{
+				Tags:     validUTF8Slice(metric.Tags),
+				Hostname: validUTF8(string(metric.Source)),
 				Values:   values,
 			}
 		}
@@ -435,11 +470,14 @@ func translateToProtobufV2(metricMap *gostatsd.MetricMap) *pb.RawMessageV2 {
 
 	pbMetricMap.Timers = map[string]*pb.TimerTagV2{}
 	for metricName, m := range metricMap.Timers {
-		pbMetricMap.Timers[metricName] = &pb.TimerTagV2{TagMap: map[string]*pb.RawTimerV2{}}
+		metricName = validUTF8(metricName)
+		if pbMetricMap.Timers[metricName] == nil {
+			pbMetricMap.Timers[metricName] = &pb.TimerTagV2{TagMap: map[string]*pb.RawTimerV2{}}
+		}
 		for tagsKey, metric := range m {
-			pbMetricMap.Timers[metricName].TagMap[tagsKey] = &pb.RawTimerV2{
-				Tags:        metric.Tags,
-				Hostname:    string(metric.Source),
+			pbMetricMap.Timers[metricName].TagMap[validUTF8(tagsKey)] = &pb.RawTimerV2{
+				Tags:        validUTF8Slice(metric.Tags),
+				Hostname:    validUTF8(string(metric.Source)),
 				SampleCount: metric.SampledCount,
 				Values:      metric.Values,
 			}
